@@ -120,8 +120,14 @@ class VExc(V):
 
 
 @dataclass
-class VGen(V):                   # lazily evaluated iterable
+class VGen(V):                   # lazily evaluated iterable (single use)
     it: Any                      # python iterator factory () -> iterator of V
+    started: Any = None
+
+    def iterator(self):
+        if self.started is None:
+            self.started = self.it()
+        return self.started
 
 
 @dataclass
